@@ -415,6 +415,7 @@ class Engine:
         self.inline_depth = 0
         self._const_cache: dict = {}
         self.covers: dict[str, bool] = {}
+        self.seen_events: set = set()
         self._callsite_ord: dict = {}
         # sync aliasing: sync dotted name -> canonical (async) dotted name
         self.alias = {}
@@ -647,7 +648,8 @@ class Engine:
         if isinstance(ref, VRef):
             f = self.reg.__dict__.get("ref_facts", {}).get(ref.cls)
             if f is not None:
-                self.assume(st, z3.Implies(r != 0, f(self, st, ref)))
+                fact = f(self, st, ref)
+                self.assume(st, fact if getattr(f, "unconditional", False) else z3.Implies(r != 0, fact))
 
     def havoc_heap(self, st: State, keys=None, keep_local=True):
         """Replace non-const heap arrays by fresh ones (lazily materialised). keys=None: every
